@@ -20,7 +20,8 @@ RULE = ("per structure a full product of stored values: QCOW2 header fields, ext
         "of length {1,7,8,255,1023} ASCII / multi-byte, snapshot tables with 0-3 entries x id/name lengths {0,1,7,8,9} x "
         "extra sizes {0,16,24,32}; VHDX header sequence pairs {0,1,2,2^63,2^64-1}^2, metadata items, parent locators "
         "with 1-4 entries incl. surrogate pairs in any data order; VMDK descriptors (key/value spellings, ddb, 0-4 extent "
-        "lines of every kind and file name, embedded descriptors of every size); VHD / VDI / HDS headers; Parallels "
+        "lines of every kind and file name, values and names containing each of 12 characters special to str.splitlines / "
+        "str.strip, locator values beginning with U+FEFF / U+FFFE, embedded descriptors of every size); VHD / VDI / HDS headers; Parallels "
         "descriptors (storages, images, shots, TopGUID). non-trivial = value that is not the builder default")
 ASSUMPTIONS = [
     "where the library documents only a normalised view (QCOW2 backing_format / image_backing_file are upper-cased) the "
@@ -350,8 +351,13 @@ def _case_vhdx_meta(case, ctx):
 LOC_KEYS = ["relative_path", "parent_linkage", "absolute_win32_path", "volume_path"]
 
 
+# the stored strings are UTF-16-LE without a byte order mark: a leading U+FEFF / U+FFFE is an ordinary character of the value
+LOC_VALS = ["{83ed3b12-f5c1-4e3c-9d0e-2f0e3b6c1a00}", "C:\\Üsers\\日本\\p.vhdx", "\\\\?\\Volume{1}\\\U0001F4BE\\p.vhdx", "",
+            "\ufeffimages\\base.vhdx", "\ufffe\u2028x\x00y", "\U0001F4BE"]
+
+
 def _gen_vhdx_locator(tier):
-    vals = ["{83ed3b12-f5c1-4e3c-9d0e-2f0e3b6c1a00}", "C:\\Üsers\\日本\\p.vhdx", "\\\\?\\Volume{1}\\\U0001F4BE\\p.vhdx", ""]
+    vals = LOC_VALS
     for n in range(1, 5):
         for keys in itertools.combinations(LOC_KEYS[1:], n - 1):
             ks = ["relative_path"] + list(keys)
@@ -368,7 +374,7 @@ def _case_vhdx_locator(case, ctx):
 
     from mc.builders import vhdx as B
 
-    vals = ["{83ed3b12-f5c1-4e3c-9d0e-2f0e3b6c1a00}", "C:\\Üsers\\日本\\p.vhdx", "\\\\?\\Volume{1}\\\U0001F4BE\\p.vhdx", ""]
+    vals = LOC_VALS
     entries = []
     for i, k in enumerate(case["keys"]):
         if k == "relative_path":
@@ -406,14 +412,20 @@ def _case_vhdx_locator(case, ctx):
 
 
 # ---- VMDK descriptors -------------------------------------------------------------------------------------------------
+ODD = ["\x0b", "\x0c", "\x1c", "\x1d", "\x1e", "\x85", "\u2028", "\u2029", "\xa0", "\u3000", "\t", "\ufeff"]
+VMDK_NAMES = (["d.vmdk", "d with space.vmdk", 'd"q.vmdk', "ünï-cödé.vmdk", "\U0001F4BE.vmdk", "size=small & id#4.vmdk"]
+              + ["my old disk" + ch + "copy-f002.vmdk" for ch in ODD])
+
+
 def _gen_vmdk_desc(tier):
     values = ["plain", "with space", "a=b", "ünï", "x\"y", "ffffffff", "C:\\dir\\f.vmdk", "/p/q r.vmdk"]
+    values += ["base" + ch + "disk.vmdk" for ch in ODD]
     spell = ["{k}={v}", '{k}="{v}"', '{k} = "{v}"', "{k} = {v}"]
     kinds = ["SPARSE", "FLAT", "VMFS", "VMFSSPARSE", "SESPARSE", "ZERO", "VMFSRDM", "VMFSRAW"]
-    names = ["d.vmdk", "d with space.vmdk", 'd"q.vmdk', "ünï-cödé.vmdk", "\U0001F4BE.vmdk", "size=small & id#4.vmdk"]
+    names = VMDK_NAMES
     for v in values:
         for sp in spell:
-            if sp.endswith("{v}") and (" " in v or '"' in v):
+            if sp.endswith("{v}") and (" " in v or '"' in v or any(ch in v for ch in ODD)):
                 continue  # unquoted values with spaces / quotes are not well-formed
             yield {"mode": "kv", "value": v, "spell": sp}
     for n in range(0, 5):
@@ -425,7 +437,7 @@ def _gen_vmdk_desc(tier):
 def _case_vmdk_desc(case, ctx):
     from dissect.hypervisor.disk.vmdk import DiskDescriptor
 
-    names = ["d.vmdk", "d with space.vmdk", 'd"q.vmdk', "ünï-cödé.vmdk", "\U0001F4BE.vmdk", "size=small & id#4.vmdk"]
+    names = VMDK_NAMES
     d = []
     ctx.nontrivial += 1
     if case["mode"] == "kv":
